@@ -6,7 +6,7 @@ COMMON_TRUSTED = [
     "Lean compiler/runtime for the executable instantiations of the models (Float, Float32, Rat, UInt64, List, String)",
 ]
 
-HOOK_COMMITS = ["f19adfe"]
+HOOK_COMMITS = ["f19adfe", "71427de"]
 
 NOT_APPLICABLE = {
     "C06": "end-to-end statistical convergence claim about the empirical law of rand/rand_distr streams: no executable model tied to the code by a "
@@ -18,7 +18,22 @@ R = "MiniMcmcVerif.Run."
 
 G = "MiniMcmcVerif.Gibbs."
 
+CAT = "MiniMcmcVerif.Categorical."
+
 PROPS = {
+    "C16": {
+        "obligations": [CAT + n for n in ["sample_in_range", "sample_pos_prob", "scan_pos", "normalize_sum_one", "normalize_nonneg",
+                                          "scan_region", "sample_region", "region_length", "lastPos_pos", "lastPos_none"]],
+        "level_text": "Theorems: for EVERY variate r that is not below 0 (0 and 1-ulp included) and every weight list whose entries are 0 or positive with one positive, "
+                      "the scan model returns an in-range index of positive probability — proved over an arbitrary carrier using only 'r < x+0 -> r < x', so it holds for IEEE floats "
+                      "including absorption; in exact arithmetic the variates mapped to category j are exactly [c_{j-1}, c_j) of length p_j; normalised probabilities sum to 1. "
+                      "Tied to distributions.rs by injecting exact variates (crafted xoshiro state) into the real sample() and comparing index and probabilities bit-for-bit with the model at Float/Float32.",
+        "level_note": "Trusted: IEEE addition satisfies 'r < x + 0 -> r < x'; rand's StandardUniform maps the injected word to (w>>11)*2^-53 / (w>>40)*2^-24 (self-tested by the harness on every run); hook Categorical::verif_with_rng only replaces the generator.",
+        "rule": "weight vectors of length 1-64 (a third of length <= 4) in five styles incl. zeros at the ends and wide dynamic range, f32 and f64; variates: 0, 1 grid step, 1-ulp, 1/2, "
+                "every cumulative sum floored to the variate grid and its two neighbours, 2-6 random; distinct by (type, weights, variate)",
+        "trusted": ["IEEE: r < x + 0 implies r < x", "rand 0.9 StandardUniform bit layout (self-tested each run)"],
+        "assumptions": ["weights are non-negative with at least one positive (the property's domain)"],
+    },
     "C05": {
         "obligations": [G + n for n in ["sweep_inv", "gibbs_call_indices", "gibbs_call_log", "gibbs_result_length",
                                         "substep_changes_only_i", "substep_writes_answer", "gibbs_result"]],
